@@ -227,6 +227,7 @@ class SPAKE2_Symmetric(_SPAKE2_Base):
                  params=DefaultParams, entropy_f=os.urandom):
         _SPAKE2_Base.__init__(self, password,
                               params=params, entropy_f=entropy_f)
+        assert isinstance(idSymmetric, bytes), repr(idSymmetric)
         self.idSymmetric = idSymmetric
 
     def my_blinding(self): return self.params.S
